@@ -69,6 +69,7 @@ var chainFields = []field{
 	{"b_env", []string{"-", "1", "2"}, "env"},
 	{"c_dep", []string{"b", "a"}, "deps"},
 	{"c_txt", []string{"x", "y", "-"}, "srcs"},
+	{"a_opt", []string{"1", "0"}, "optional-output"},
 }
 
 func (c Chain) Name() string { return "chain" }
@@ -80,6 +81,16 @@ func (c Chain) Edits(s Src) []Edit {
 	}
 	if c.WithRm {
 		es = append(es, RmPlzOut(s))
+		// moving the tree to another state together with removing plz-out (switch branch + clean) in one step
+		for _, v := range []string{"0", "1"} {
+			if s["a_opt"] != v {
+				n := s.Clone()
+				n["a_opt"] = v
+				e := RmPlzOut(n)
+				e.Name, e.Kind = "rm-plz-out+a_opt="+v, "rm-plz-out+optional-output"
+				es = append(es, e)
+			}
+		}
 	}
 	return es
 }
@@ -87,7 +98,10 @@ func (c Chain) Edits(s Src) []Edit {
 func (c Chain) Files(s Src) map[string]string {
 	var b strings.Builder
 	acmd := map[string]string{"0": catCmd, "1": catCmd + "; true", "2": catCmd + "; echo extra >> $OUT"}[s["a_cmd"]]
-	fmt.Fprintf(&b, "genrule(name=\"a\", srcs=[\"a.txt\"], outs=[%q], cmd=%q)\n", s["a_out"], fmt.Sprintf(logPfx, "//p:a")+acmd)
+	if s["a_opt"] == "1" {
+		acmd += "; echo opt > a.opt"
+	}
+	fmt.Fprintf(&b, "genrule(name=\"a\", srcs=[\"a.txt\"], outs=[%q], optional_outs=[\"*.opt\"], cmd=%q)\n", s["a_out"], fmt.Sprintf(logPfx, "//p:a")+acmd)
 	if s["b"] == "1" {
 		env := ""
 		if s["b_env"] != "-" {
@@ -111,7 +125,13 @@ func (c Chain) Files(s Src) map[string]string {
 }
 
 func (c Chain) Targets(s Src) []Target {
-	ts := []Target{{"//p:a", []string{"plz-out/gen/p/" + s["a_out"]}}, {"//p:c", []string{"plz-out/gen/p/c.out"}}}
+	aouts := []string{"plz-out/gen/p/" + s["a_out"]}
+	if s["a_opt"] == "1" {
+		// only when the current definition produces it: a stale optional output left behind by an earlier definition is
+		// not an output of the target (just as a renamed declared output leaves its old file behind)
+		aouts = append(aouts, "plz-out/gen/p/a.opt")
+	}
+	ts := []Target{{"//p:a", aouts}, {"//p:c", []string{"plz-out/gen/p/c.out"}}}
 	if s["b"] == "1" {
 		ts = append(ts, Target{"//p:b", []string{"plz-out/gen/p/b.out"}})
 	}
